@@ -200,3 +200,313 @@ Lemma spec_accept_clauses ops :
   spec_accept ops = true ->
   s_nodupb (flat_map s_qubits ops) = true /\ s_all_pairs (fun e f => negb (s_collide e f)) ops = true.
 Proof. unfold spec_accept. now rewrite andb_true_iff. Qed.
+
+(* ------------------------------------------------------------------ (d) parking *)
+Lemma existsb_triples {A B C} (phi : A * B * C -> bool) (f : A -> B) (g : A -> C) l :
+  existsb phi (combine (combine l (map f l)) (map g l)) = existsb (fun n => phi (n, f n, g n)) l.
+Proof. induction l as [|x t IH]; simpl; [reflexivity | now rewrite IH]. Qed.
+
+(* the edge found through involved_qubits.index(n): the first listed gate that contains n *)
+Definition first_edge (n : string) (es : list edge) : edge :=
+  nth (index_of n (involved_qubits es)) (involved_edges es) (n, n).
+
+Lemma first_edge_cons n e t : first_edge n (e :: t) = if edge_contains e n then e else first_edge n t.
+Proof.
+  unfold first_edge, involved_qubits, involved_edges, edge_contains, qmem, edge_qubits.
+  cbn [flat_map app index_of existsb].
+  destruct (String.eqb (fst e) n); [reflexivity|].
+  destruct (String.eqb (snd e) n); reflexivity.
+Qed.
+
+Lemma qmem_involved_cons n e t : qmem n (involved_qubits (e :: t)) = edge_contains e n || qmem n (involved_qubits t).
+Proof.
+  unfold involved_qubits, edge_contains, qmem, edge_qubits. cbn [flat_map app existsb].
+  destruct (String.eqb (fst e) n), (String.eqb (snd e) n); reflexivity.
+Qed.
+
+Lemma first_edge_in n es :
+  qmem n (involved_qubits es) = true -> In (first_edge n es) es /\ edge_contains (first_edge n es) n = true.
+Proof.
+  induction es as [|e t IH]; intros H; [discriminate|].
+  rewrite qmem_involved_cons in H. rewrite first_edge_cons.
+  destruct (edge_contains e n) eqn:E.
+  - split; [now left | exact E].
+  - cbn [orb] in H. destruct (IH H) as [H1 H2]. split; [now right | exact H2].
+Qed.
+
+Lemma qmem_involved n e es : In e es -> edge_contains e n = true -> qmem n (involved_qubits es) = true.
+Proof.
+  induction es as [|x t IH]; intros Hin Hc; [contradiction|].
+  rewrite qmem_involved_cons. destruct Hin as [->|Hin]; [now rewrite Hc|].
+  rewrite (IH Hin Hc). apply orb_true_r.
+Qed.
+
+Lemma contains_cases e n : edge_contains e n = true -> n = fst e \/ n = snd e.
+Proof.
+  unfold edge_contains, qmem. cbn [existsb]. rewrite !orb_true_iff. intros [H|[H|H]]; try discriminate;
+    apply String.eqb_eq in H; auto.
+Qed.
+
+Lemma contains_s_qubits e n : edge_contains e n = existsb (String.eqb n) (s_qubits e).
+Proof.
+  unfold edge_contains, qmem, s_qubits. cbn [existsb].
+  now rewrite (String.eqb_sym (fst e) n), (String.eqb_sym (snd e) n).
+Qed.
+
+Lemma disjoint_unique es :
+  s_nodupb (flat_map s_qubits es) = true ->
+  forall e e' n, In e es -> In e' es -> edge_contains e n = true -> edge_contains e' n = true -> e = e'.
+Proof.
+  induction es as [|x t IH]; intros Hnd e e' n He He' Hc Hc'; [contradiction|].
+  rewrite nodupb_cons_edge, !andb_true_iff in Hnd. destruct Hnd as [[_ Hcross] Hnd].
+  rewrite forallb_forall in Hcross.
+  assert (K : forall y, In y t -> edge_contains x n = true -> edge_contains y n = true -> False).
+  { intros y Hy Hx Hyn. specialize (Hcross y Hy). unfold s_cross in Hcross.
+    rewrite andb_true_iff, !negb_true_iff in Hcross. destruct Hcross as [C1 C2].
+    rewrite contains_s_qubits in Hyn.
+    destruct (contains_cases x n Hx) as [->| ->]; congruence. }
+  destruct He as [<-|He], He' as [<-|He'].
+  - reflexivity.
+  - exfalso. exact (K e' He' Hc Hc').
+  - exfalso. exact (K e He Hc' Hc).
+  - exact (IH Hnd e e' n He He' Hc Hc').
+Qed.
+
+Definition higher_q (n q : string) : bool := FrequencyGroupIdentifier_is_higher_than (freq n) (freq q).
+(* contribution of one gate e to the parking question of q, in the model's terms *)
+Definition c1 (q : string) (e : edge) : bool :=
+  existsb (fun n => edge_contains e n && higher_q n q && on_moving_side n e) (get_neighbors q).
+
+Lemma parking_core q es :
+  s_nodupb (flat_map s_qubits es) = true ->
+  existsb (fun t => match t with (n, fn, e) => FrequencyGroupIdentifier_is_higher_than fn (freq q) && on_moving_side n e end)
+          (involved_triples q es)
+  = existsb (c1 q) es.
+Proof.
+  intros Hnd. unfold involved_triples. rewrite existsb_triples, existsb_filter.
+  fold (first_edge) in *. apply bool_eq_iff. rewrite !existsb_exists. split.
+  - intros [n [Hn H]]. rewrite !andb_true_iff in H. destruct H as [Hq [Hh Hm]].
+    destruct (first_edge_in n es Hq) as [F1 F2].
+    exists (first_edge n es). split; [exact F1|].
+    unfold c1. apply existsb_exists. exists n. split; [exact Hn|].
+    unfold higher_q. unfold first_edge in *. now rewrite F2, Hh, Hm.
+  - intros [e [He H]]. unfold c1 in H. apply existsb_exists in H. destruct H as [n [Hn H]].
+    rewrite !andb_true_iff in H. destruct H as [[Hc Hh] Hm].
+    exists n. split; [exact Hn|].
+    assert (Hq : qmem n (involved_qubits es) = true) by (eapply qmem_involved; eassumption).
+    destruct (first_edge_in n es Hq) as [F1 F2].
+    assert (E : first_edge n es = e) by (eapply disjoint_unique; eassumption).
+    unfold first_edge in E. rewrite Hq, E. unfold higher_q in Hh. now rewrite Hh, Hm.
+Qed.
+
+(* the rule's contribution of one gate *)
+Definition sp1 (q : string) (e : edge) : bool :=
+  match s_mover e with
+  | Some m => s_adjacent m q && s_opt_eqb (s_level q) (s_gate_level e)
+  | None => false
+  end.
+
+Lemma spec_park_sp1 q ops : spec_park q ops = s_is_idle q ops && existsb (sp1 q) ops.
+Proof. reflexivity. Qed.
+
+Lemma park_table_b :
+  forallb (fun q => forallb (fun e => (edge_contains e q || Bool.eqb (c1 q e) (sp1 q e))
+                                       && implb (c1 q e) (qmem q (edge_neighbors e))) oriented_edges) qubit_ids = true.
+Proof. vm_compute. reflexivity. Qed.
+
+Lemma park_table q e :
+  In q qubit_ids -> In e oriented_edges ->
+  (edge_contains e q = false -> c1 q e = sp1 q e) /\ (c1 q e = true -> qmem q (edge_neighbors e) = true).
+Proof.
+  intros Hq He. pose proof park_table_b as H. rewrite forallb_forall in H. specialize (H q Hq).
+  rewrite forallb_forall in H. specialize (H e He). rewrite andb_true_iff in H. destruct H as [H1 H2]. split.
+  - intros Hc. rewrite Hc in H1. cbn [orb] in H1. now apply eqb_prop in H1.
+  - intros Hc. rewrite Hc in H2. exact H2.
+Qed.
+
+Lemma included_same q es :
+  existsb (String.eqb q) (flat_map s_qubits es) = existsb (fun e => edge_contains e q) es.
+Proof.
+  rewrite existsb_flat_qubits. apply existsb_ext_in. intros e _. symmetry. apply contains_s_qubits.
+Qed.
+
+Lemma parking_spec ops q :
+  incl ops oriented_edges -> spec_accept ops = true -> In q qubit_ids ->
+  requires_parking q ops = spec_park q ops.
+Proof.
+  intros Hin Hacc Hq. destruct (spec_accept_clauses ops Hacc) as [Hnd _].
+  rewrite spec_park_sp1. unfold s_is_idle, requires_parking. rewrite included_same.
+  destruct (existsb (fun e => edge_contains e q) ops) eqn:Hinc.
+  - cbn [negb andb]. destruct (spectator q ops); reflexivity.
+  - cbn [negb andb]. rewrite parking_core by exact Hnd.
+    assert (E : existsb (c1 q) ops = existsb (sp1 q) ops).
+    { apply existsb_ext_in. intros e He. apply (park_table q e Hq (Hin e He)).
+      destruct (edge_contains e q) eqn:Ec; [|reflexivity].
+      assert (X : existsb (fun e0 => edge_contains e0 q) ops = true) by (apply existsb_exists; exists e; split; assumption).
+      congruence. }
+    destruct (spectator q ops) eqn:Hs; cbn [negb]; [exact E|].
+    rewrite <- E. symmetry. destruct (existsb (c1 q) ops) eqn:Hex; [|reflexivity].
+    apply existsb_exists in Hex. destruct Hex as [e [He Hc]].
+    apply (park_table q e Hq (Hin e He)) in Hc.
+    assert (X : spectator q ops = true) by (unfold spectator; apply existsb_exists; exists e; split; assumption).
+    congruence.
+Qed.
+
+(* ------------------------------------------------------------------ (e) the sequence generator *)
+Section PartitionFacts.
+Context {A : Type}.
+
+Lemma splits_spec (l : list A) : forall k s r, In (s, r) (splits k l) -> Permutation (s ++ r) l /\ List.length s = k.
+Proof.
+  induction l as [|x t IH]; intros k s r H.
+  - destruct k; simpl in H; [|contradiction]. destruct H as [H|[]]. inversion H. split; reflexivity.
+  - destruct k as [|k'].
+    + simpl in H. destruct H as [H|[]]. inversion H. split; reflexivity.
+    + cbn [splits] in H. apply in_app_or in H. destruct H as [H|H]; apply in_map_iff in H; destruct H as [[s' r'] [E H]];
+        cbn [fst snd] in E; inversion E; subst; destruct (IH _ _ _ H) as [P L].
+      * split; [cbn [app]; now constructor | cbn [List.length]; now rewrite L].
+      * split; [|exact L]. apply Permutation_sym, Permutation_cons_app, Permutation_sym, P.
+Qed.
+
+Lemma parts_spec fuel : forall k (l : list A) p,
+  In p (parts fuel k l) -> Permutation (List.concat p) l /\ Forall (fun b => List.length b = k) p.
+Proof.
+  induction fuel as [|f IH]; intros k l p H.
+  - destruct l as [|x t]; [|contradiction]. destruct H as [<-|[]]. split; constructor.
+  - destruct l as [|x t].
+    + destruct H as [<-|[]]. split; constructor.
+    + destruct k as [|k']; [contradiction|]. cbn [parts] in H.
+      apply in_flat_map in H. destruct H as [[s r] [Hs H]]. cbn [fst snd] in H.
+      apply in_map_iff in H. destruct H as [p' [<- Hp']].
+      destruct (splits_spec _ _ _ _ Hs) as [P L]. destruct (IH _ _ _ Hp') as [P' F'].
+      split.
+      * cbn [List.concat app]. constructor.
+        apply Permutation_trans with (s ++ r)%list; [|exact P]. now apply Permutation_app_head.
+      * constructor; [cbn [List.length]; now rewrite L | exact F'].
+Qed.
+
+Lemma map_nth_seq (l : list A) d : map (fun i => nth i l d) (seq 0 (List.length l)) = l.
+Proof.
+  induction l as [|x t IH]; [reflexivity|].
+  cbn [List.length seq map nth]. f_equal. rewrite <- seq_shift, map_map. exact IH.
+Qed.
+End PartitionFacts.
+
+Lemma sequences_ok edges k maxc ptrs :
+  construct_allowed_gate_sequences edges k maxc = GenOk ptrs ->
+  forall s, In s (operation_sequences edges ptrs) ->
+    Permutation (List.concat s) edges
+    /\ (forall step, In step s -> mutually_allowed step = true /\ List.length step = Z.to_nat k).
+Proof.
+  unfold construct_allowed_gate_sequences. intros H s Hs.
+  destruct (combination_size (Z.of_nat (List.length edges)) k) as [c|]; [|discriminate].
+  destruct (c >? maxc)%Z; [discriminate|]. inversion H as [Hp]. clear H.
+  unfold operation_sequences in Hs. apply in_map_iff in Hs. destruct Hs as [ptr [<- Hptr]].
+  rewrite <- Hp in Hptr. apply filter_In in Hptr. destruct Hptr as [Hpart Hall].
+  unfold partitions, nat_range in Hpart. apply parts_spec in Hpart. destruct Hpart as [P F].
+  split.
+  - rewrite <- concat_map.
+    rewrite <- (map_nth_seq edges ("", "")) at 2. now apply Permutation_map.
+  - intros step Hstep. apply in_map_iff in Hstep. destruct Hstep as [sub [<- Hsub]].
+    rewrite forallb_forall in Hall. split; [now apply Hall|].
+    rewrite map_length. rewrite Forall_forall in F. now apply F.
+Qed.
+
+(* distinctness as a proposition (stable under permutation and sub-lists), equivalent to edge_nodupb on device edges *)
+Definition edistinct (l : list edge) : Prop :=
+  NoDup l /\ forall e f, In e l -> In f l -> edge_eqb f e = true -> e = f.
+
+Lemma edge_eqb_refl e : edge_eqb e e = true.
+Proof. unfold edge_eqb, edge_contains, qmem. cbn [existsb]. rewrite !String.eqb_refl. cbn. now rewrite orb_true_r. Qed.
+
+Lemma edistinct_of_nodupb l : incl l oriented_edges -> edge_nodupb l = true -> edistinct l.
+Proof.
+  induction l as [|x t IH]; intros Hin H; [split; [constructor | intros ? ? []]|].
+  cbn [edge_nodupb] in H. rewrite andb_true_iff, negb_true_iff in H. destruct H as [Hx Hnd].
+  assert (Hto : incl t oriented_edges) by (intros y Hy; apply Hin; now right).
+  destruct (IH Hto Hnd) as [N U].
+  assert (K : forall y, In y t -> edge_eqb y x = false).
+  { intros y Hy. destruct (edge_eqb y x) eqn:E; [|reflexivity].
+    assert (X : emem x t = true) by (unfold emem; apply existsb_exists; exists y; split; assumption). congruence. }
+  split.
+  - constructor; [|exact N]. intros Hc. specialize (K x Hc). rewrite edge_eqb_refl in K. discriminate.
+  - intros e f [<-|He] [<-|Hf] E.
+    + reflexivity.
+    + rewrite (K f Hf) in E. discriminate.
+    + rewrite edge_eqb_sym in E by (apply Hin; [now left | now right]). rewrite (K e He) in E. discriminate.
+    + now apply U.
+Qed.
+
+Lemma nodupb_of_edistinct l : edistinct l -> edge_nodupb l = true.
+Proof.
+  induction l as [|x t IH]; intros [N U]; [reflexivity|].
+  cbn [edge_nodupb]. inversion N as [|? ? Hx Nt]; subst. rewrite andb_true_iff, negb_true_iff. split.
+  - destruct (emem x t) eqn:E; [|reflexivity]. unfold emem in E. apply existsb_exists in E. destruct E as [y [Hy E]].
+    assert (x = y) by (apply U; [now left | now right | exact E]). subst. contradiction.
+  - apply IH. split; [exact Nt|]. intros e f He Hf. apply U; now right.
+Qed.
+
+Lemma NoDup_concat_member {A} (s : list (list A)) step : NoDup (List.concat s) -> In step s -> NoDup step.
+Proof.
+  induction s as [|b t IH]; intros N H; [contradiction|].
+  cbn [List.concat] in N. destruct H as [<-|H].
+  - eapply NoDup_app_remove_r; exact N.
+  - apply IH; [eapply NoDup_app_remove_l; exact N | exact H].
+Qed.
+
+Lemma in_concat_member {A} (s : list (list A)) step x : In step s -> In x step -> In x (List.concat s).
+Proof. intros H1 H2. apply in_concat. exists step. split; assumption. Qed.
+
+Lemma sequences_spec edges k maxc ptrs :
+  incl edges oriented_edges -> edge_nodupb edges = true ->
+  construct_allowed_gate_sequences edges k maxc = GenOk ptrs ->
+  forall s, In s (operation_sequences edges ptrs) ->
+    Permutation (List.concat s) edges /\ (forall step, In step s -> spec_accept step = true).
+Proof.
+  intros Hin Hnd H s Hs. destruct (sequences_ok _ _ _ _ H s Hs) as [P Hsteps]. split; [exact P|].
+  intros step Hstep. destruct (Hsteps step Hstep) as [Hm _].
+  destruct (edistinct_of_nodupb edges Hin Hnd) as [N U].
+  assert (Hsub : forall x, In x step -> In x edges).
+  { intros x Hx. eapply Permutation_in; [exact P|]. eapply in_concat_member; eassumption. }
+  rewrite <- accept_spec; [exact Hm | intros x Hx; apply Hin, Hsub, Hx |].
+  apply nodupb_of_edistinct. split.
+  - eapply NoDup_concat_member; [|exact Hstep]. eapply Permutation_NoDup; [apply Permutation_sym, P | exact N].
+  - intros e f He Hf. apply U; now apply Hsub.
+Qed.
+
+(* ------------------------------------------------------------------ the tables describe one device *)
+Lemma device_tables_wf :
+  spec_device qubit_ids S17_edges (S17_parity_x ++ S17_parity_z)%list
+              (map (fun kv => (fst kv, FrequencyGroupIdentifier__id (snd kv))) S17_frequency) = true
+  /\ forallb freq_defined (flat_map edge_qubits oriented_edges) = true
+  /\ List.length qubit_ids = 17%nat /\ List.length S17_edges = 24%nat.
+Proof. vm_compute. repeat split. Qed.
+
+(* the translated ordering is the order LOW < MID < HIGH *)
+Lemma frequency_order a b :
+  FrequencyGroupIdentifier_is_higher_than (MkFrequencyGroupIdentifier a) (MkFrequencyGroupIdentifier b) = spec_higher a b
+  /\ FrequencyGroupIdentifier_is_lower_than (MkFrequencyGroupIdentifier a) (MkFrequencyGroupIdentifier b) = spec_lower a b
+  /\ FrequencyGroupIdentifier_is_equal_to (MkFrequencyGroupIdentifier a) (MkFrequencyGroupIdentifier b) = FrequencyGroup_eqb a b.
+Proof. destruct a, b; vm_compute; repeat split. Qed.
+
+(* ------------------------------------------------------------------ non-vacuity *)
+Example accept_example :
+  let ops := [("X1", "D1"); ("Z1", "D4"); ("X3", "D7"); ("Z2", "D6")] in
+  incl ops oriented_edges /\ edge_nodupb ops = true /\ mutually_allowed ops = true /\ spec_accept ops = true
+  /\ mutually_allowed (("D2", "Z1") :: ops) = false.
+Proof. vm_compute. repeat split; intros e H; repeat (destruct H as [<-|H]; [tauto|]); contradiction. Qed.
+
+Example parking_example :
+  let ops := [("X1", "D1"); ("Z1", "D5")] in
+  spec_accept ops = true /\ filter (fun q => requires_parking q ops) qubit_ids = ["Z4"; "D2"; "X3"; "X2"].
+Proof. vm_compute. split; reflexivity. Qed.
+
+Example generator_example :
+  let edges := [("X1", "D1"); ("Z1", "D5"); ("X3", "D8"); ("Z2", "D3")] in
+  exists ptrs, construct_allowed_gate_sequences edges 2 20000 = GenOk ptrs /\ List.length ptrs = 3%nat.
+Proof. eexists. split; [vm_compute; reflexivity | reflexivity]. Qed.
+
+Example partitions_count :
+  List.length (partitions 2 (nat_range 8)) = 105%nat /\ combination_size 8 2 = Some 105%Z
+  /\ List.length (partitions 3 (nat_range 9)) = 280%nat /\ combination_size 9 3 = Some 280%Z.
+Proof. vm_compute. repeat split. Qed.
